@@ -2,6 +2,7 @@
 import hashlib
 import itertools
 import random
+import re
 
 from ..framework import Prop, mk, guarded, ensure_repo_on_path, exc_family
 
@@ -12,6 +13,18 @@ PLEN = {'P2PKH': 20, 'P2SH': 20, 'P2WPKH': 20, 'P2WSH': 32}
 HRPS = {'mainnet': 'bc', 'testnet': 'tb', 'signet': 'tb', 'regtest': 'bcrt'}
 B58 = '123456789ABCDEFGHJKLMNPQRSTUVWXYZabcdefghijkmnopqrstuvwxyz'
 B32 = 'qpzry9x8gf2tvdw0s3jn54khce6mua7l'
+
+
+def called(fn):
+    """run fn for its side effects; its value / exception is not an observable of the property"""
+    try:
+        fn()
+    except Exception:  # noqa: BLE001
+        pass
+    return 'ok'
+
+
+_ERR = re.compile(r'err:[A-Za-z0-9_:.]+')
 
 
 def tx(s):
@@ -39,6 +52,38 @@ def push_variants(d):
     out.append(b'\x4d' + n.to_bytes(2, 'little') + d)
     out.append(b'\x4e' + n.to_bytes(4, 'little') + d)
     return out
+
+
+def _polymod(values):
+    chk = 1
+    for v in values:
+        top = chk >> 25
+        chk = (chk & 0x1ffffff) << 5 ^ v
+        for i, g in enumerate((0x3b6a57b2, 0x26508e6d, 0x1ea119fa, 0x3d4233dd, 0x2a1462b3)):
+            chk ^= g if (top >> i) & 1 else 0
+    return chk
+
+
+def to5(data):
+    """8-bit groups -> 5-bit groups, zero padded (BIP173)"""
+    acc = bits = 0
+    out = []
+    for b in data:
+        acc = (acc << 8) | b
+        bits += 8
+        while bits >= 5:
+            bits -= 5
+            out.append((acc >> bits) & 31)
+    if bits:
+        out.append((acc << (5 - bits)) & 31)
+    return out
+
+
+def bech32_text(hrp, values):
+    """BIP173 text of hrp and 5-bit data values — the harness's own generator of inputs (no library helper)"""
+    ex = [ord(x) >> 5 for x in hrp] + [0] + [ord(x) & 31 for x in hrp]
+    pm = _polymod(ex + values + [0] * 6) ^ 1
+    return hrp + '1' + ''.join(B32[d] for d in values + [(pm >> 5 * (5 - i)) & 31 for i in range(6)])
 
 
 def b58check(v, payload):
@@ -80,7 +125,8 @@ class C12(Prop):
                     '"valid address for the chain" (C10 check rule, C11 BIP173 predicate)',
                     'btcmodel executable = compiled Model.* (Lean compiler); Crypto.hash256/hash160 validated against '
                     'hashlib / the library on every case',
-                    'module globals bitcoin.params / bitcoin.core.coreparams modelled as an explicit state pair']
+                    'module globals bitcoin.params / bitcoin.core.coreparams modelled as an explicit state pair; the check '
+                    'compares the values the two globals expose (name, prefixes, HRP, limits), never their identity']
     assumptions = ['bitcoin.core.Hash returns at least 4 bytes (discharged for SHA-256d: roundtrip_sha256d, '
                    'cross_chain_refused_base58_sha256d via Crypto.hash256_length)',
                    'cross-chain refusal of bech32 text by the base58 reader: its 32-bit checksum does not match '
@@ -100,8 +146,7 @@ class C12(Prop):
         import bitcoin.core
         import bitcoin.wallet as W
         import bitcoin.core.script as SC
-        import bitcoin.segwit_addr as SA
-        self.bitcoin, self.W, self.SC, self.SA = bitcoin, W, SC, SA
+        self.bitcoin, self.W, self.SC = bitcoin, W, SC
 
     # ------------------------------------------------------------------------------------------
     def generate(self, rng, tier, shard, nshards):
@@ -190,21 +235,27 @@ class C12(Prop):
 
     def gen_frombytes(self, rng, big):
         """direct from_bytes calls of every address class: every chain's version bytes, foreign ones, the default
-        argument; witness versions and program lengths that match no class"""
+        argument; witness versions and program lengths that match no class.  The statement speaks about the four
+        conversions, not about these constructors: only the calls that build what a conversion builds (the chain's
+        own version byte / the default, witness version 0 with a 20- or 32-byte program) are in its domain, the
+        others are tagged out-of-domain (they exercise the error branches of the model)."""
+        own = {'mainnet': (0, 5)}
         vers = [0, 5, 111, 196, 128, 239, 1, 4, 6, 110, 112, 195, 197, 255, 256, 257, -1, 1000]
         for chain in CHAINS:
+            pk, sc = own.get(chain, (111, 196))
             for n in (20, 0, 19, 21, 32):
                 d = bytes(rng.randrange(256) for _ in range(n))
                 for v in vers:
                     for cls in ('B58', 'P2SH', 'P2PKH'):
-                        yield mk('c12.frombytes', self.hist(rng, chain), cls, v, d.hex(), tag='frombytes')
+                        ind = (cls == 'B58' and v in (pk, sc)) or (cls == 'P2SH' and v == sc) or (cls == 'P2PKH' and v == pk)
+                        yield mk('c12.frombytes', self.hist(rng, chain), cls, v, d.hex(), tag='frombytes', ood=not ind)
                 yield mk('c12.frombytes', chain, 'P2SH', 'none', d.hex(), tag='frombytes')
                 yield mk('c12.frombytes', chain, 'P2PKH', 'none', d.hex(), tag='frombytes')
             for wv in (0, 1, 2, 15, 16, 17, 255):
                 for n in (0, 1, 2, 19, 20, 21, 31, 32, 33, 40, 41):
                     d = bytes(rng.randrange(256) for _ in range(n))
                     for cls in (('B32', 'P2WSH', 'P2WPKH') if (wv in (0, 1, 17) or big) else ('B32',)):
-                        yield mk('c12.frombytes', chain, cls, wv, d.hex(), tag='frombytes')
+                        yield mk('c12.frombytes', chain, cls, wv, d.hex(), tag='frombytes', ood=not (wv == 0 and n in (20, 32)))
 
     FLUSH = ('sel:mainnet', 'parse:' + '1111111111111111111114oLvT2'.encode().hex())
     OBS = 'sbkvreh'
@@ -323,7 +374,7 @@ class C12(Prop):
             return b58check({'mainnet': 0}.get(chain, 111), p)
         if t == 'P2SH':
             return b58check({'mainnet': 5}.get(chain, 196), p)
-        return self.SA.bech32_encode(HRPS[chain], [0] + self.SA.convertbits(p, 8, 5))
+        return bech32_text(HRPS[chain], [0] + to5(p))
 
     def gen_cross(self, rng, big):
         for a in CHAINS:
@@ -334,16 +385,15 @@ class C12(Prop):
                         yield mk('c12.parse', self.hist(rng, b), tx(text), tag='cross' if a != b else 'own')
 
     def gen_segwit(self, rng, big):
-        SA = self.SA
         for hrp in ('bc', 'tb', 'bcrt', 'BC', 'bc1', 'b', 'tc'):
             for v in range(0, 18):
                 lens = range(0, 43) if (big or v in (0, 1, 16)) else (1, 2, 20, 32, 40, 41)
                 for n in lens:
                     prog = bytes(rng.randrange(256) for _ in range(n))
-                    data = SA.convertbits(prog, 8, 5)
+                    data = to5(prog)
                     if v >= 32:
                         continue
-                    text = SA.bech32_encode(hrp.lower(), [v] + data)
+                    text = bech32_text(hrp.lower(), [v] + data)
                     if hrp.isupper():
                         text = text.upper()
                     for chain in (CHAINS if (n in (20, 32) or v == 1) else ('mainnet', 'regtest')):
@@ -453,11 +503,10 @@ class C12(Prop):
             outs = self.select_all(a[0])
             bitcoin = self.bitcoin
             p, cp = bitcoin.params, bitcoin.core.coreparams
-            kind = ('same-object' if p is cp else
-                    'core-only' if not any(hasattr(cp, f) for f in ('BASE58_PREFIXES', 'BECH32_HRP', 'MESSAGE_START'))
-                    else 'distinct-full-object')
-            return '%s,%s,%s,%s,%d,%d|%s' % (p.NAME, cp.NAME, kind, p.BECH32_HRP,
-                                             p.BASE58_PREFIXES['PUBKEY_ADDR'], p.BASE58_PREFIXES['SCRIPT_ADDR'], ','.join(outs))
+            # the values the two globals expose to their readers — never object identity, never attribute existence
+            return '%s,%s,%d,%d;%s,%d,%d|%s' % (p.NAME, p.BECH32_HRP, p.BASE58_PREFIXES['PUBKEY_ADDR'],
+                                                p.BASE58_PREFIXES['SCRIPT_ADDR'], cp.NAME, cp.MAX_MONEY,
+                                                cp.PROOF_OF_WORK_LIMIT, ','.join(outs))
         self.select_all(a[0])
         W, SC, bitcoin = self.W, self.SC, self.bitcoin
         if op == 'c12.conv':
@@ -530,8 +579,10 @@ class C12(Prop):
                     outs.append('none')
                     continue
                 obs = {'s': lambda: str(x), 'b': lambda: bytes(x).hex(), 'k': lambda: bytes(x.to_scriptPubKey()).hex(),
-                       'v': lambda: str(x.nVersion if hasattr(x, 'nVersion') else x.witver), 'r': lambda: repr(x),
-                       'e': lambda: str(x == bytes(x)), 'h': lambda: str(hash(x) == hash(bytes(x)))}
+                       'v': lambda: str(x.nVersion if hasattr(x, 'nVersion') else x.witver),
+                       # events only: the property does not constrain repr / == / hash, but they may leave state behind
+                       'r': lambda: called(lambda: repr(x)), 'e': lambda: called(lambda: x == bytes(x)),
+                       'h': lambda: called(lambda: hash(x))}
                 outs.append('/'.join(guarded(obs[o]) for o in ar[0]))
                 continue
             key = (k == 'parse', ar[0])
@@ -549,6 +600,26 @@ class C12(Prop):
                 outs.append(made(lambda: W.P2PKHBitcoinAddress.from_scriptPubKey(
                     o, accept_non_canonical_pushdata=ar[1] == '1', accept_bare_checksig=ar[2] == '1')))
         return outs
+
+    def agree(self, c, io, mo):
+        """What the statement constrains: for TEXT, refusal with the library's address error and no other exception
+        type — families compared exactly (c12.parse, `parse:` steps).  For scripts, selections and direct constructor
+        calls it says which inputs yield which address / script / text, not which exception refuses the others:
+        there only ok-vs-error is compared (any err:* ≍ any err:*)."""
+        if io == mo:
+            return True
+        op = c['op']
+        if op == 'c12.parse':
+            return False
+        if op == 'c12.seq':
+            a, b = io.split(' ; '), mo.split(' ; ')
+            if len(a) != len(b) or len(a) != len(c['args']):
+                return False
+            for st, x, y in zip(c['args'], a, b):
+                if x != y and (st.lstrip('=').startswith('parse:') or _ERR.sub('err', x) != _ERR.sub('err', y)):
+                    return False
+            return True
+        return _ERR.sub('err', io) == _ERR.sub('err', mo)
 
     def nontrivial(self, c, io):
         return any(x not in ('', 'mainnet') for x in c['args'])
